@@ -1,6 +1,161 @@
-(** C12 — placeholder while the proofs are being written (statements follow). *)
-From Teleport Require Import Base.Bytes Base.Outcome Base.AList Model.Registry Model.RegistryCheck.
+(** C12 — Token-pair registry stays self-consistent under every governance action.
+    Only statements here; proofs are in Proofs/Registry.v.  The model ([Model/Registry.v], variant [head] =
+    the code at /repo HEAD) takes the external functions as arguments:
+      [hid text denom] = TokenPair.GetID (sha256 of "text|denom"), [canon a] = Address.Hex (EIP-55),
+    and the theorems carry their assumed behaviour as explicit premises ([Oracles]). *)
+From Teleport Require Import Base.Bytes Base.Outcome Base.AList Model.Registry Model.RegistryCheck
+  Proofs.RegistryMap Proofs.Registry Proofs.RegistryInst.
 
-Example C12_model_runs : st_enable empty_state = true.
-Proof. reflexivity. Qed.
-Print Assumptions C12_model_runs.
+(** GetID is collision-free and never empty; the check-summed text of a 20-byte address is a hex address
+    that parses back to it. *)
+Definition Oracles (hid : bytes -> bytes -> bytes) (canon : bytes -> bytes) : Prop :=
+  (forall t d t' d', hid t d = hid t' d' -> t = t' /\ d = d') /\
+  (forall t d, hid t d <> []) /\
+  (forall a, is_hex_address (canon a) = true) /\
+  (forall a, length a = 20%nat -> addr_of (canon a) = a).
+
+(** [Good hid s]: every pair is stored under its GetID, has a non-empty duplicate-free list of denominations
+    and a hex-address text, and is reachable by its address and by EACH of its denominations; every address /
+    denomination entry points to an existing pair that lists it; no registered denomination reads as a hex
+    address.  It holds after ANY sequence of RegisterCoin / AddCoin / RegisterERC20 / ToggleTokenRelay /
+    UpdateTokenPairERC20 proposals (validated, executed on a cache context as gov does), conversions with
+    their self-destruct clean-up, EnableAggregate changes and a genesis import, from any good registry.
+    Side conditions ([admissible]): the address RegisterCoin's deployment creates is a 20-byte address not in
+    the ERC20 index; a genesis is imported into an empty registry. *)
+Theorem C12_registry_consistent : forall hid canon evm_denom, Oracles hid canon ->
+  forall os s, Good hid s -> admissible_run hid canon evm_denom head s os -> Good hid (run hid canon evm_denom head s os).
+Proof. intros hid canon e (A & B0 & C & D). exact (registry_consistent hid canon e A C D). Qed.
+Print Assumptions C12_registry_consistent.
+
+Theorem C12_registry_consistent_from_empty : forall hid canon evm_denom, Oracles hid canon ->
+  forall os, admissible_run hid canon evm_denom head empty_state os -> Good hid (run hid canon evm_denom head empty_state os).
+Proof. intros hid canon e (A & B0 & C & D). exact (registry_consistent_from_empty hid canon e A C D). Qed.
+Print Assumptions C12_registry_consistent_from_empty.
+
+(** Consequences of [Good]: no denomination and no contract belongs to two pairs; index entries are never
+    dangling. *)
+Theorem C12_no_denom_in_two_pairs : forall hid s id1 p1 id2 p2 d,
+  Good hid s -> aget id1 (st_pairs s) = Some p1 -> aget id2 (st_pairs s) = Some p2 ->
+  In d (p_denoms p1) -> In d (p_denoms p2) -> id1 = id2 /\ p1 = p2.
+Proof. exact no_denom_in_two_pairs_head. Qed.
+Print Assumptions C12_no_denom_in_two_pairs.
+
+Theorem C12_no_contract_in_two_pairs : forall hid s id1 p1 id2 p2,
+  Good hid s -> aget id1 (st_pairs s) = Some p1 -> aget id2 (st_pairs s) = Some p2 ->
+  addr_of (p_text p1) = addr_of (p_text p2) -> id1 = id2 /\ p1 = p2.
+Proof. exact no_contract_in_two_pairs_head. Qed.
+Print Assumptions C12_no_contract_in_two_pairs.
+
+Theorem C12_index_entries_point_to_pairs : forall hid s, Good hid s ->
+  (forall a id, aget a (st_erc20 s) = Some id -> exists p, aget id (st_pairs s) = Some p /\ addr_of (p_text p) = a) /\
+  (forall d id, aget d (st_denom s) = Some id -> exists p, aget id (st_pairs s) = Some p /\ In d (p_denoms p)).
+Proof. exact index_entries_point_to_pairs. Qed.
+Print Assumptions C12_index_entries_point_to_pairs.
+
+(** Every pair is found through the API ([GetTokenPairID], with its IsHexAddress switch) by its address text
+    and by EACH of its denominations, and is stored under its GetID. *)
+Theorem C12_resolvable : forall hid s id p,
+  Good hid s -> aget id (st_pairs s) = Some p ->
+  pair_id hid p = Ok id /\ get_token_pair_id s (p_text p) = id /\ forall d, In d (p_denoms p) -> get_token_pair_id s d = id.
+Proof. exact resolvable_head. Qed.
+Print Assumptions C12_resolvable.
+
+(** [MintingEnabled] succeeds only for a denomination listed by the stored, enabled pair the token resolves
+    to (module enabled) ... *)
+Theorem C12_minting_enabled_sound : forall hid s token denom p,
+  Good hid s -> minting_enabled head s token denom = Ok p ->
+  st_enable s = true /\ p_enabled p = true /\ In denom (p_denoms p) /\
+  exists id, aget id (st_pairs s) = Some p /\ get_token_pair_id s token = id.
+Proof. exact minting_enabled_sound_head. Qed.
+Print Assumptions C12_minting_enabled_sound.
+
+(** ... and, while the module and the pair are enabled, it succeeds for EVERY listed denomination, in the form
+    ConvertCoin uses (denomination twice) and in the form ConvertERC20 uses (contract text, denomination). *)
+Theorem C12_minting_enabled_complete : forall hid, (forall t d, hid t d <> []) -> forall s id p d,
+  Good hid s -> st_enable s = true -> aget id (st_pairs s) = Some p -> p_enabled p = true -> In d (p_denoms p) ->
+  minting_enabled head s d d = Ok p /\ minting_enabled head s (p_text p) d = Ok p.
+Proof. exact minting_enabled_complete_head. Qed.
+Print Assumptions C12_minting_enabled_complete.
+
+(** Convert back: a denomination that converts before ANY operation still converts after it, through a pair
+    that lists at least the same denominations, has the same owner and is still enabled — unless the operation
+    explicitly toggled that very pair, disabled the module, or cleaned that pair up after its contract
+    self-destructed ([explicit]). *)
+Theorem C12_convert_back_possible : forall hid canon evm_denom, Oracles hid canon ->
+  forall s o d p id,
+  Good hid s -> admissible head s o -> minting_enabled head s d d = Ok p -> pair_id hid p = Ok id ->
+  explicit hid head s o id \/
+  exists p', minting_enabled head (fst (step hid canon evm_denom head s o)) d d = Ok p' /\ evolved p p'.
+Proof. intros hid canon e (A & B0 & C & D). exact (convert_back_possible_head hid canon e A B0 C D). Qed.
+Print Assumptions C12_convert_back_possible.
+
+(** A genesis accepted by [GenesisState.Validate] is imported (InitGenesis does not panic) into a good
+    registry. *)
+Theorem C12_genesis_consistent : forall hid, (forall t d t' d', hid t d = hid t' d' -> t = t' /\ d = d') ->
+  forall ps, validate_genesis head [] [] ps = Ok tt ->
+  exists s', init_genesis hid empty_state ps = Ok s' /\ Good hid s'.
+Proof. exact genesis_consistent. Qed.
+Print Assumptions C12_genesis_consistent.
+
+(** The pinned [IsDenomRegistered(Name)] test (any variant with the repaired update / genesis validation): the
+    registry stays consistent because "a registered denomination has bank metadata" is invariant (metadata is
+    never removed) and [EqualMetadata]'s pointer comparison rejects every base that has metadata. *)
+Theorem C12_registry_consistent_masked : forall hid canon evm_denom, Oracles hid canon ->
+  forall v os s, repaired v -> v_test_base v = false ->
+  Consistent hid s -> MetaInv s -> admissible_run hid canon evm_denom v s os ->
+  Consistent hid (run hid canon evm_denom v s os) /\ MetaInv (run hid canon evm_denom v s os).
+Proof. intros hid canon e (A & B0 & C & D). exact (registry_consistent_masked hid canon e A C D). Qed.
+Print Assumptions C12_registry_consistent_masked.
+
+(** The executable monitors evaluated on the implementation's store dumps decide [Good], and accept every
+    state the model reaches. *)
+Theorem C12_monitor_decides : forall hid s, consistent_b hid s = true /\ nohex_b s = true <-> Good hid s.
+Proof. exact monitor_decides. Qed.
+Print Assumptions C12_monitor_decides.
+
+Theorem C12_monitor_accepts_model : forall hid canon evm_denom, Oracles hid canon ->
+  forall os s, Good hid s -> admissible_run hid canon evm_denom head s os ->
+  consistent_b hid (run hid canon evm_denom head s os) = true /\ nohex_b (run hid canon evm_denom head s os) = true.
+Proof. intros hid canon e (A & B0 & C & D). exact (monitor_accepts_model hid canon e A C D). Qed.
+Print Assumptions C12_monitor_accepts_model.
+
+(** The 40-hex-digit corner (O5): such a string IS a valid bank denomination and passes the proposal's
+    ValidateBasic, and GetTokenPairID treats it as an address — which is why the code has to refuse it. *)
+Theorem C12_hex_looking_denom_is_valid :
+  let d := B "d533edae68bbfb79518734716ae7dfecc427b16e" in
+  valid_denom d = true /\ is_hex_address d = true /\
+  validate_basic (ORegisterCoin {| md_desc := B "x"; md_units := [(d, 0%N)]; md_base := d; md_display := d;
+                                   md_name := B "hexcoin"; md_symbol := B "HX" |} [] true) = true.
+Proof. vm_compute. repeat split; reflexivity. Qed.
+Print Assumptions C12_hex_looking_denom_is_valid.
+
+(** Non-vacuity: the oracle hypotheses are satisfiable ... *)
+Example C12_oracles_satisfiable : Oracles hid0 canon0.
+Proof. split; [exact hid0_inj | split; [exact hid0_nonempty | split; [exact canon0_hex | exact canon0_addr]]]. Qed.
+Print Assumptions C12_oracles_satisfiable.
+
+(** ... and a concrete admissible history (the D6 witness: RegisterERC20 X; AddCoin dcoin X;
+    UpdateTokenPairERC20 X -> Y; ConvertCoin dcoin; Toggle dcoin) runs to a registry with one pair at Y that
+    lists both denominations, both resolvable and convertible until the explicit toggle. *)
+Definition ex_X : bytes := repeat x11 20.
+Definition ex_Y : bytes := repeat x22 20.
+Definition ex_q : option erc20q := Some {| q_name := B "coin"; q_symbol := B "CN"; q_decimals := 18; q_sname := B "coin" |}.
+Definition ex_md : metadata :=
+  {| md_desc := B "the dcoin coin"; md_units := [(B "dcoin", 0%N)]; md_base := B "dcoin"; md_display := B "dcoin";
+     md_name := B "dcoin"; md_symbol := B "DCOIN" |}.
+Definition ex_ops : list op :=
+  [ ORegisterERC20 (canon0 ex_X) ex_q; OAddCoin ex_md (canon0 ex_X) true; OUpdate (canon0 ex_X) (canon0 ex_Y) ex_q;
+    OConvertCoin (B "dcoin") [ex_X; ex_Y] ].
+
+Example C12_nonvacuous :
+  admissible_run hid0 canon0 (B "atele") head empty_state (ex_ops ++ [OToggle (B "dcoin")]) /\
+  let s := run hid0 canon0 (B "atele") head empty_state ex_ops in
+  (exists id p, st_pairs s = [(id, p)] /\ p_text p = canon0 ex_Y /\ length (p_denoms p) = 2%nat /\
+                minting_enabled head s (B "dcoin") (B "dcoin") = Ok p) /\
+  minting_enabled head (fst (step hid0 canon0 (B "atele") head s (OToggle (B "dcoin")))) (B "dcoin") (B "dcoin") = Err.
+Proof.
+  split; [vm_compute; repeat split|]. cbv zeta. split.
+  - eexists. eexists. vm_compute. repeat split; reflexivity.
+  - vm_compute. reflexivity.
+Qed.
+Print Assumptions C12_nonvacuous.
